@@ -24,7 +24,8 @@ dict) can reach generated text. The analysis is deliberately simple and conserva
 * a consumer is *order-free* when it is (directly, or through one generator / list comprehension) an argument of
   `sorted len set frozenset min max sum any all bool`, a membership / comparison test, a set method, a set
   comprehension, or a truth test.  `sorted(..)` consumers are not dropped: they go into a second table with the source
-  text of the `key=` argument, because a sort only fixes the order when its key is injective on the items.
+  text of the `key=` argument, because a sort only fixes the order when its key is injective on the items (a key that
+  names a module-level one-`return` function of the same file is given as `<name> = lambda <args>: <expr>`).
   `x = list(<unordered>)` followed by `x.sort(..)` in the same function counts as sorted (`list-sort`).
 
 Output (Lean, `StoneVerif.Tables`):
@@ -557,6 +558,26 @@ def _maximal_unordered(fn, sc, nested):
     return out
 
 
+def _named_key(tree, key):
+    """`key=<name>` where <name> is a module-level function of the same file whose body is (a doc string and) one
+    `return <expr>`: the key text becomes `<name> = lambda <args>: <expr>`, so that the table pins what the key IS and
+    not only what it is called (an edit of the function's body changes the table)."""
+    prefix = 'list-sort:' if key.startswith('list-sort:') else ''
+    name = key[len(prefix):]
+    if not name.isidentifier():
+        return key
+    for st in tree.body:
+        if isinstance(st, ast.FunctionDef) and st.name == name:
+            body = list(st.body)
+            if body and isinstance(body[0], ast.Expr) and isinstance(getattr(body[0], 'value', None), ast.Constant) \
+                    and isinstance(body[0].value.value, str):
+                body = body[1:]
+            if len(body) == 1 and isinstance(body[0], ast.Return) and body[0].value is not None:
+                return '%s%s = lambda %s: %s' % (prefix, name, _src(st.args, 60), _src(body[0].value, 160))
+            return '%s%s = <function with a body of %d statements>' % (prefix, name, len(body))
+    return key
+
+
 def scan(repo):
     files = scanned_files(repo)
     trees = []
@@ -585,6 +606,7 @@ def scan(repo):
                 iter_sites.append((rel, q, k, kind))
                 docs.append('%s:%s#%d %s: %s' % (rel, q, k, kind, _src(e)))
             for k, (_l, _c, key, e) in enumerate(sorted(found_s, key=lambda r: r[:3])):
+                key = _named_key(tree, key)
                 sort_sites.append((rel, q, k, key))
                 docs.append('%s:%s#%d sorted[%s]: %s' % (rel, q, k, key, _src(e)))
     state = []
